@@ -139,6 +139,10 @@ extern int mpt_line_set(MPT_STRUCT(line) *li, const char *name, MPT_INTERFACE(co
 		return setPosition(&li->to.y, src);
 	}
 	if (!strcasecmp(name, "color")) {
+		if (!src) {
+			li->color = def_line.color;
+			return 0;
+		}
 		return mpt_color_pset(&li->color, src);
 	}
 	if (!strcasecmp(name, "width")) {
